@@ -80,8 +80,9 @@ structure Access where
   deriving DecidableEq, Repr, FromJson, ToJson, Inhabited
 
 structure Case where
-  /-- the original class's `__dict__` as the builder copies it (user keys, `__module__`, `__dict__`, …),
-      in order -/
+  /-- the original class's `__dict__` as the builder copies it — i.e. AFTER the user's `field_transformer` ran
+      (`_transform_attrs` precedes `dict(cls.__dict__)` in `_ClassBuilder.__init__`) — user keys, `__module__`,
+      `__dict__`, …, in order -/
   body : List (String × Item)
   /-- closure cells before the build -/
   cells : List (Nat × CellVal)
@@ -397,6 +398,13 @@ structure Obs where
       False, `getattr(inst, unknown, d)` is `d`, `copy.copy` / `copy.deepcopy` work — they probe optional dunders on
       the instance): observed; all of them follow from "an unknown attribute raises AttributeError" -/
   lookupDiff : List String
+  /-- user callbacks that run DURING class construction and change the class (a `field_transformer` setting /
+      deleting / replacing class attributes, `__attrs_init_subclass__`, `__init_subclass__`, metaclass hooks,
+      `__set_name__`): what they left on the class that the returned class does not reflect — a deleted attribute
+      that is back, a mark of the inherited hook that is missing, a callback-made attribute on which the slotted
+      and the dict build of the same class differ.  (What such callbacks ADD before the builder copies the class
+      dict is simply part of `body`.)  Observed. -/
+  callbackDiff : List String
   /-- runtime identity facts that do NOT hold (type, name, qualname, module, doc, bases): observed only -/
   runtimeDiff : List String
   deriving DecidableEq, Repr, FromJson, ToJson, Inhabited
@@ -456,6 +464,7 @@ def model (c : Case) : Obs :=
     -- both builds resolve the same `__setattr__` for every field iff they decide the reset alike
     assignAgree := slotsResetOf c == dictReset c,
     lookupDiff := [],
+    callbackDiff := [],
     runtimeDiff := [] }
 
 /-! ## `__attrs_init_subclass__` along a chain of builds (dict and slotted) -/
